@@ -84,6 +84,38 @@ def zero_closure_kind(F, call_effect):
     return None
 
 
+def path_rejects_zero_id(F, p):
+    """A zero test on identifier bytes decided 'non-zero' on this path, in any spelling: all(|b| b == 0) false,
+    any(|b| b != 0) true, is_zero()/is_all_zero() false."""
+    for e in p.effects:
+        if e[0] == "call" and re.search(r"::is_(all_)?zero\w*$", e[1]):
+            if conn.truth(p, e) is False:
+                return True
+        if e[0] == "call" and (e[1].endswith("Iterator>::all") or e[1].endswith("Iterator>::any") or e[1].endswith("Iterator::all") or e[1].endswith("Iterator::any")):
+            kind = zero_closure_kind(F, e)
+            is_all = e[1].endswith("all")
+            t_ = conn.truth(p, e)
+            if (is_all and kind == "Eq" and t_ is False) or (not is_all and kind == "Ne" and t_ is True):
+                return True
+    return False
+
+
+def reach_calls(F, f):
+    """Call targets of f and of the private helpers / closures it delegates to."""
+    out, seen, work = set(), set(), [f]
+    while work:
+        g = work.pop()
+        if g["path"] in seen:
+            continue
+        seen.add(g["path"])
+        for c in conn.fn_refs(g):
+            out.add(c)
+            h = F.fns.get(c)
+            if h is not None and (h.get("kind") == "Closure" or explore.small_private_helper(h)) and len(seen) < 40:
+                work.append(h)
+    return out
+
+
 def callees_of(f):
     out = set()
     for b in f["blocks"]:
@@ -251,19 +283,7 @@ def check(run, F, tier):
             if not has_id:
                 continue
             nok += 1
-            # a zero test on the id bytes decided false on this path: Iterator::all(.., |b| b == 0) == false, or is_zero() == false
-            okz = False
-            for e in p.effects:
-                if e[0] == "call" and re.search(r"::is_(all_)?zero\w*$", e[1]):
-                    if conn.truth(p, e) is False:
-                        okz = True
-                if e[0] == "call" and (e[1].endswith("Iterator>::all") or e[1].endswith("Iterator>::any") or e[1].endswith("Iterator::all") or e[1].endswith("Iterator::any")):
-                    # all(|b| b == 0) decided false, or any(|b| b != 0) decided true: some identifier byte is non-zero
-                    kind = zero_closure_kind(F, e)
-                    is_all = e[1].endswith("all")
-                    t_ = conn.truth(p, e)
-                    if (is_all and kind == "Eq" and t_ is False) or (not is_all and kind == "Ne" and t_ is True):
-                        okz = True
+            okz = path_rejects_zero_id(F, p)
             if not okz:
                 zero_rejected = False
         key = "%s::%s" % (ver, kind)
@@ -326,9 +346,10 @@ def check(run, F, tier):
         if not m:
             continue
         kind = m.group(1)
-        if not any(c.endswith(PP) for c in callees_of(f)):
+        if not any(c.endswith(PP) for c in reach_calls(F, f)):
             continue
-        ex = explore.Explorer(F, inline_pred=lambda ex, callee, info: callee.get("kind") == "Closure")
+        # closures and private helpers are followed (also through function pointers); validators stay visible as calls
+        ex = explore.Explorer(F, inline_pred=conn.not_validator_inline(F))
         ps = ex.run(f["path"])
         exp = lambda t: conn.expand_all(ex.interned_rev, t)
         seen = {}
@@ -347,17 +368,16 @@ def check(run, F, tier):
                     continue
                 n_pp += 1
                 r = repr(exp(e[4][1]))
-                vs = sorted({c[1] for c in calls[i + 1:] if re.search(r"::validate_\w+$", c[1]) and any(r in roots_in(exp(a)) for a in c[3])})
+                vs = sorted({c[1] for c in calls[i + 1:] if c[1] in F.fns and conn.is_prop_validator(F.fns[c[1]]) and any(r in roots_in(exp(a)) for a in c[3])})
                 k = (n_pp, tuple(vs), r in stored_roots)
                 seen.setdefault(k, p)
         if not seen:
             r7.violation(kind, "%s: no accepting path parses a property list (anchor lost)" % f["path"])
             continue
         # builder-side validators of the same kind
-        bval = set()
-        for bp, bf in F.fns.items():
-            if re.match(r"^mqtt::packet::v5_0::%s::\w*Builder(::<\w+>)?::(validate|build)$" % kind, bp):
-                bval |= {c for c in callees_of(bf) if re.search(r"::validate_\w+$", c)}
+        bstarts = [bp for bp in F.fns if re.match(r"^mqtt::packet::v5_0::%s::\w*Builder(::<\w+>)?::(validate|build)$" % kind, bp)]
+        bval = set(conn.validators_reached(F, bstarts, through=lambda g: g.get("kind") == "Closure" or explore.small_private_helper(g)
+                                           or ("Builder" in g.get("impl_self", "") and not g.get("pub"))))
         for (n_pp, vs, stored), p in sorted(seen.items()):
             key = "%s#%d" % (kind, n_pp)
             if not vs:
@@ -372,7 +392,7 @@ def check(run, F, tier):
             else:
                 r7.ok(key, {"validators": [x.split("::")[-1] for x in vs]})
         pvals = {v for (_, vs, _) in seen for v in vs}
-        missing = {b for b in bval if b.endswith("_properties")} - pvals
+        missing = {b for b in bval if F.fns[b]["argc"] == 1} - pvals      # (a validator with further inputs is matched by R9 / C18)
         if missing:
             r7.violation(kind + "|builder-only", "the v5_0::%s builder validates with %s but parse never applies it to a parsed list"
                          % (kind, sorted(x.split("::")[-1] for x in missing)), site="%s:%s" % (f["file"], f["line"]))
